@@ -3,7 +3,7 @@ beside it), TLC-exported timed scripts, the synctest bubble driver, and trace va
 runs against AttackContract restricted to the clauses of the property being checked."""
 import glob, json, os
 from . import core
-from .main import report_rejections
+from .main import report_rejections, report_crashes
 
 
 def signature(lines, off):
@@ -48,7 +48,11 @@ def run(ctx, prop, bias):
            "VERIF_SLICE": 1 if ctx.thorough else 16,
            "VERIF_RANDOM": 60000 if ctx.thorough else 3000,
            "VERIF_BIG": 300 if ctx.thorough else 10}
-    ctx.run_driver(vh, "TestDrv_Attack", out, env, timeout=3000)
+    crashes = []
+    ctx.run_driver(vh, "TestDrv_Attack", out, env, timeout=3000, crash_reports=crashes)
+    report_crashes(ctx, crashes, "a goroutine of the attack panicked while a timed script ran")
+    if crashes:
+        return "model_checking"
     cases = collect_cases(glob.glob(os.path.join(out, "attack_*.ndjson")))
     summ = json.load(open(os.path.join(out, "attack.summary.json")))
     stop_cases = []
@@ -65,9 +69,17 @@ def run(ctx, prop, bias):
         pn, pev, prej = core.validate_cases(ctx, "attack", "PumpTrace", "PumpTrace.cfg", None, cases=[(1, plines)], prefix="pump")
         report_rejections(ctx, prej, lambda l, o: "Pump:" + l[o - 1].strip()[:200], "scripted run of processAttack rejected by Pump!Expected")
         ctx.coverage["pump_scripts_validated"] = len(plines) - 1
+    # 3c. C04 under the real scheduler and the real runtime timers, with the timer-channel semantics of both go.mod generations
+    rt_cases = []
+    if prop == "C04":
+        for dbg in ("", "asynctimerchan=1"):
+            out4 = ctx.sub("attackrt" + dbg.replace("=", ""))
+            ctx.run_driver(vh, "TestDrv_AttackRT", out4, {"GODEBUG": dbg} if dbg else None, timeout=3000)
+            rt_cases += collect_cases([os.path.join(out4, "attackrt.ndjson")])
+        ctx.coverage["real_time_runs"] = len(rt_cases)
     # 4. trace validation against the contract clauses of this property
     cfg = "AttackTrace%s.cfg" % prop
-    n, nev, rej = core.validate_cases(ctx, "attack", "AttackTrace", cfg, None, cases=cases + stop_cases, nshards=core.NCPU)
+    n, nev, rej = core.validate_cases(ctx, "attack", "AttackTrace", cfg, None, cases=cases + stop_cases + rt_cases, nshards=core.NCPU)
     report_rejections(ctx, rej, signature, "attack trace rejected by AttackContract clauses of " + prop)
     ctx.coverage.update({
         "traces_validated_against_impl": n, "trace_events": nev,
